@@ -81,7 +81,7 @@ NormF(t, c, f, v, sh) ==
          \* WorkObjectHeader.data is a plain (non-optional) proto bytes field: empty is not transmitted;
          \* JSON hex strings cannot express nil
       [] t = "WOHeader" /\ c = "proto" /\ f = "data" /\ v = Z                   -> A
-      [] t = "WOHeader" /\ c \in {"json", "rpcjson"} /\ f = "data" /\ v = A     -> Z
+      [] t = "WOHeader" /\ c = "rpcjson" /\ f = "data" /\ v = A                 -> Z
          \* before the KawPow fork the share/AuxPow fields are not part of the header encoding
       [] t = "WOHeader" /\ c = "proto" /\ f \in ForkFields /\ Val(t, sh, "fork") = "pre" -> A
          \* work-object views: what a view does not carry comes back nil, what it carries comes back
@@ -93,11 +93,12 @@ NormF(t, c, f, v, sh) ==
       [] t = "WOWorkShare" /\ f = "uncles" /\ v = A                             -> Z
       [] t = "WOHeaderView" /\ c = "convert" /\ f \in {"txs", "manifest", "interlink"} -> Z
       [] t \in {"WOBlock", "WOHeaderView"} /\ c \in WireCodecs /\ f \in BodyLists /\ v = A -> Z
+         \* the JSON-RPC map always renders the uncle list
+      [] t = "WOBlock" /\ c = "rpcjson" /\ f = "uncles" /\ v = A                -> Z
          \* the database stores header and body; the attached transaction is not persisted
       [] t = "WOBlock" /\ c = "db" /\ f = "tx"                                  -> A
-         \* receipts: log data is a plain proto bytes field (empty = absent); RLP/JSON cannot express nil
+         \* receipts: log data is a plain proto bytes field (empty = absent)
       [] t = "Receipt" /\ c \in {"proto", "db"} /\ f = "logData" /\ v = Z       -> A
-      [] t = "Receipt" /\ c \in {"rlpstore", "json"} /\ f = "logData" /\ v = A  -> Z
          \* the JSON-RPC map renders byte strings as hex: nil becomes empty
       [] t = "AuxPow" /\ c = "rpcjson" /\ f \in {"auxSig", "auxpow2"} /\ v = A  -> Z
       [] OTHER                                                                   -> v
